@@ -897,7 +897,7 @@ func (d Driver) traces(c *core.Ctx) {
 	d.tracesN(c, bandN, c.Pick(24, 400), "bands", bandScene)
 	d.tracesN(c, bandN, c.Pick(40, 600), "plate", plateScene)
 	d.tracesN(c, bandN, c.Pick(40, 600), "islands", islandScene)
-	d.tracesN(c, 16, c.Pick(2500, 10000), "fixed", fixedScene)
+	d.tracesN(c, 16, c.Pick(1200, 4000), "fixed", fixedScene)
 }
 
 func (d Driver) tracesN(c *core.Ctx, latticeN, n int, space string, gen func(r *rand.Rand) (latgeo.LPath, latgeo.LPath)) {
